@@ -472,4 +472,215 @@ example : (iterCells exHist2 none).toOption.map (fun l => l.map (fun c => (c.edg
 example : (iterBinsWithEdges exHist2.bins exHist2.edges).toOption.map (fun l => l.map (·.2)) =
     some [[(0, 1), (0, 2)], [(1, 3), (0, 2)]] := by decide +kernel
 
+/-! ### `iter_cells` with index ranges -/
+
+/-- all positions of an index tuple satisfy their predicate (and the lengths agree) -/
+def selAll : List (Nat → Bool) → List Nat → Bool
+  | [], [] => true
+  | p :: ps, i :: is => p i && selAll ps is
+  | _, _ => false
+
+theorem indexProd_filter : ∀ (ps : List (Nat → Bool)) (rs : List (List Nat)), ps.length = rs.length →
+    indexProd (List.zipWith (fun p r => r.filter p) ps rs) = (indexProd rs).filter (selAll ps)
+  | [], [], _ => by simp [indexProd, selAll, List.filter]
+  | [], _ :: _, h => by simp at h
+  | _ :: _, [], h => by simp at h
+  | p :: ps, r :: rs, h => by
+    have ih := indexProd_filter ps rs (by simpa using h)
+    simp only [List.zipWith_cons_cons, indexProd_cons, ih]
+    clear h
+    induction r with
+    | nil => simp
+    | cons i r ihr =>
+      simp only [List.filter_cons, List.flatMap_cons, List.filter_append]
+      rw [← ihr]
+      by_cases hp : p i = true
+      · simp only [hp, if_true, List.flatMap_cons]
+        congr 1
+        simp only [List.filter_map]
+        congr 1
+        apply List.filter_congr
+        intro t _
+        simp [selAll, hp]
+      · simp only [hp, if_false]
+        have : List.filter (selAll (p :: ps)) (List.map (fun x => i :: x) (indexProd rs)) = [] := by
+          simp only [List.filter_eq_nil_iff, List.mem_map]
+          rintro _ ⟨t, _, rfl⟩
+          simp [selAll, hp]
+        simp [this]
+
+theorem filter_range_ge (lo : Nat) : ∀ u : Nat,
+    (List.range u).filter (fun i => decide (lo ≤ i)) = (List.range (u - lo)).map (· + lo)
+  | 0 => by simp
+  | u + 1 => by
+    rw [List.range_succ, List.filter_append, filter_range_ge lo u]
+    by_cases h : lo ≤ u
+    · have : u + 1 - lo = (u - lo) + 1 := by omega
+      rw [this, List.range_succ, List.map_append]
+      simp [h]
+    · have : u + 1 - lo = u - lo := by omega
+      simp [h, this]
+
+theorem rangeFromTo_eq_filter (lo : Nat) (up : Int) : ∀ (n : Nat), up ≤ n →
+    rangeFromTo lo up = (List.range n).filter (fun (i : Nat) => decide ((lo : Int) ≤ (i : Int) ∧ (i : Int) < up))
+  | 0, hu => by
+    have : up.toNat = 0 := by omega
+    simp [rangeFromTo, this]
+  | n + 1, hu => by
+    by_cases hn : up ≤ (n : Int)
+    · rw [rangeFromTo_eq_filter lo up n hn, List.range_succ, List.filter_append]
+      have : ¬ ((n : Int) < up) := by omega
+      simp [this]
+    · have hup : up = ((n + 1 : Nat) : Int) := by omega
+      subst hup
+      simp only [rangeFromTo, Int.toNat_natCast]
+      rw [← filter_range_ge lo (n + 1)]
+      apply List.filter_congr
+      intro i hi
+      have := List.mem_range.1 hi
+      simp
+      omega
+
+/-- a range `(low, up)` that `iter_cells` accepts for an axis -/
+def ValidRange (e : List Q) (r : Option Int × Option Int) : Prop :=
+  (∀ l, r.1 = some l → 0 ≤ l) ∧ (∀ u, r.2 = some u → u ≤ (e.length : Int) - 1)
+
+/-- the bin indices `low ≤ i < up` that a range selects on an axis (`None`: no limit) -/
+def rangePred (e : List Q) (r : Option Int × Option Int) : Nat → Bool :=
+  fun i => decide (r.1.getD 0 ≤ (i : Int) ∧ (i : Int) < r.2.getD ((e.length : Int) - 1))
+
+/-- one valid range per axis -/
+def ValidRanges : List (List Q) → List (Option Int × Option Int) → Prop
+  | [], [] => True
+  | e :: es, r :: rs => ValidRange e r ∧ ValidRanges es rs
+  | _, _ => False
+
+theorem realIndRanges_cons_valid (e : List Q) (es : List (List Q)) (lo up : Option Int)
+    (rs : List (Option Int × Option Int)) (hv : ValidRange e (lo, up)) :
+    realIndRanges (e :: es) ((lo, up) :: rs) = (do
+      let tail ← realIndRanges es rs
+      pure (rangeFromTo (lo.getD 0).toNat (up.getD ((e.length : Int) - 1)) :: tail)) := by
+  obtain ⟨hlo, hup⟩ := hv
+  have h0 : ∀ l, lo = some l → ¬ l < 0 := fun l hl => by have := hlo l hl; omega
+  have h1 : ∀ u, up = some u → ¬ u > (e.length : Int) - 1 := fun u hu => by have := hup u hu; omega
+  cases lo <;> cases up <;> simp [realIndRanges, bind, Except.bind, pure, Except.pure, h0, h1]
+
+theorem head_range_eq (e : List Q) (lo up : Option Int) (hv : ValidRange e (lo, up)) :
+    rangeFromTo (lo.getD 0).toNat (up.getD ((e.length : Int) - 1)) =
+      (List.range (e.length - 1)).filter (rangePred e (lo, up)) := by
+  obtain ⟨hlo, hup⟩ := hv
+  have hle : up.getD ((e.length : Int) - 1) ≤ ((e.length - 1 : Nat) : Int) := by
+    cases up with
+    | none => simp; omega
+    | some u => have := hup u rfl; simp; omega
+  rw [rangeFromTo_eq_filter _ _ (e.length - 1) hle]
+  apply List.filter_congr
+  intro i _
+  have hnn : 0 ≤ lo.getD 0 := by
+    cases lo with
+    | none => simp
+    | some l => simpa using hlo l rfl
+  have hcast : (((lo.getD 0).toNat : Nat) : Int) = lo.getD 0 := by omega
+  simp only [rangePred, hcast]
+
+theorem realIndRanges_valid : ∀ (axes : List (List Q)) (rg : List (Option Int × Option Int)), ValidRanges axes rg →
+    realIndRanges axes rg = .ok (List.zipWith (fun p r => r.filter p) (List.zipWith rangePred axes rg)
+      ((nbinsOf axes).map List.range))
+  | [], [], _ => by simp [realIndRanges, nbinsOf]
+  | [], _ :: _, h => by simp [ValidRanges] at h
+  | _ :: _, [], h => by simp [ValidRanges] at h
+  | e :: es, (lo, up) :: rs, h => by
+    obtain ⟨hv, ht⟩ := h
+    have ih := realIndRanges_valid es rs ht
+    rw [realIndRanges_cons_valid e es lo up rs hv, ih, head_range_eq e lo up hv]
+    simp [bind, Except.bind, pure, Except.pure, nbinsOf]
+
+theorem validRanges_length : ∀ (axes : List (List Q)) (rg : List (Option Int × Option Int)), ValidRanges axes rg →
+    axes.length = rg.length
+  | [], [], _ => rfl
+  | [], _ :: _, h => by simp [ValidRanges] at h
+  | _ :: _, [], h => by simp [ValidRanges] at h
+  | _ :: es, _ :: rs, h => by simp [validRanges_length es rs h.2]
+
+/-- `iter_cells(hist, ranges)` with one valid index range per coordinate yields exactly the cells of `iter_bins`
+whose index lies in every range, in the same order, as `HistCell(edges, content, index)`.  Any dimension. -/
+theorem iter_cells_ranges (h : Hist) (wf : h.WF) (r : Option Int × Option Int) (rs : List (Option Int × Option Int))
+    (hv : ValidRanges h.edges.axes (r :: rs)) :
+    iterCells h (some (r :: rs)) =
+      .ok (((cells h.bins).filter (fun p => selAll (List.zipWith rangePred h.edges.axes (r :: rs)) p.1)).map
+        (fun p => { edges := cellEdgesRef h.edges.axes p.1, bin := .leaf p.2, index := p.1 })) := by
+  have hs : HasShape (nbinsOf h.edges.axes) h.bins := wf.2
+  unfold iterCells
+  simp only [realIndRanges_valid _ _ hv, bind, Except.bind]
+  rw [indexProd_filter _ _ (by
+    have := validRanges_length _ _ hv
+    simp [nbinsOf, ← this]), ← cells_fst _ _ hs, List.filter_map]
+  apply mapM_map_ok
+  intro p hp
+  obtain ⟨h1, h2⟩ := cell_facts h wf p (List.mem_filter.1 hp).1
+  simp [h1, h2, pure, Except.pure]
+
+example : ValidRanges exHist2.edges.axes [(some 1, none), (none, some 1)] := by
+  simp [ValidRanges, ValidRange, exHist2, Edges.axes]
+example : (iterCells exHist2 (some [(some 1, none), (none, some 1)])).toOption.map (fun l => l.map (·.index)) =
+    some [[1, 0]] := by decide +kernel
+
+/-- a negative lower index or an upper index beyond the number of bins is rejected: `LenaValueError` -/
+theorem realIndRanges_invalid : ∀ (axes : List (List Q)) (rg : List (Option Int × Option Int)),
+    rg.length ≤ axes.length →
+    (∃ (k : Nat) (e : List Q) (r : Option Int × Option Int), axes[k]? = some e ∧ rg[k]? = some r ∧ ¬ ValidRange e r) →
+    realIndRanges axes rg = .error .lenaValueError
+  | _, [], _, ⟨k, _, _, _, h, _⟩ => by simp at h
+  | [], _ :: _, hl, _ => by simp at hl
+  | e :: es, (lo, up) :: rs, hl, ⟨k, e', r', h1, h2, h3⟩ => by
+    by_cases hv : ValidRange e (lo, up)
+    · cases k with
+      | zero =>
+        simp at h1 h2
+        subst h1; subst h2
+        exact absurd hv h3
+      | succ k =>
+        have ih := realIndRanges_invalid es rs (by simpa using hl) ⟨k, e', r', by simpa using h1, by simpa using h2, h3⟩
+        obtain ⟨hlo, hup⟩ := hv
+        have h0 : ∀ l, lo = some l → ¬ l < 0 := fun l hl => by have := hlo l hl; omega
+        have h1 : ∀ u, up = some u → ¬ u > (e.length : Int) - 1 := fun u hu => by have := hup u hu; omega
+        cases lo <;> cases up <;> simp [realIndRanges, ih, bind, Except.bind, pure, Except.pure, h0, h1]
+    · cases lo with
+      | some l =>
+        by_cases hl0 : l < 0
+        · simp [realIndRanges, hl0, bind, Except.bind]
+        · cases up with
+          | none =>
+            exfalso; apply hv
+            exact ⟨fun l' h => by (cases h; omega), fun u h => by cases h⟩
+          | some u =>
+            by_cases hgt : u > (e.length : Int) - 1
+            · simp [realIndRanges, hl0, hgt, bind, Except.bind, pure, Except.pure]
+            · exfalso; apply hv
+              exact ⟨fun l' h => by (cases h; omega), fun u' h => by (cases h; omega)⟩
+      | none =>
+        cases up with
+        | none =>
+          exfalso; apply hv
+          exact ⟨fun l' h => by (cases h), fun u h => by cases h⟩
+        | some u =>
+          by_cases hgt : u > (e.length : Int) - 1
+          · simp [realIndRanges, hgt, bind, Except.bind, pure, Except.pure]
+          · exfalso; apply hv
+            exact ⟨fun l' h => by (cases h), fun u' h => by (cases h; omega)⟩
+
+theorem iter_cells_bad_range (h : Hist) (r : Option Int × Option Int) (rs : List (Option Int × Option Int))
+    (hl : (r :: rs).length ≤ h.edges.axes.length)
+    (hbad : ∃ (k : Nat) (e : List Q) (r' : Option Int × Option Int), h.edges.axes[k]? = some e ∧ (r :: rs)[k]? = some r' ∧ ¬ ValidRange e r') :
+    iterCells h (some (r :: rs)) = .error .lenaValueError := by
+  unfold iterCells
+  simp [realIndRanges_invalid _ _ hl hbad, bind, Except.bind]
+
+example : iterCells exHist (some [(some (-1), none)]) = .error .lenaValueError :=
+  iter_cells_bad_range _ _ _ (by simp [exHist, Edges.axes])
+    ⟨0, [0, 1, 3], (some (-1), none), by simp [exHist, Edges.axes], by simp, by simp [ValidRange]⟩
+example : iterCells exHist (some [(none, some 3)]) = .error .lenaValueError :=
+  iter_cells_bad_range _ _ _ (by simp [exHist, Edges.axes])
+    ⟨0, [0, 1, 3], (none, some 3), by simp [exHist, Edges.axes], by simp, by simp [ValidRange]⟩
+
 end Lena.C12
